@@ -571,6 +571,9 @@ def evalString (si : SetInfo) (cps : String) (input : List Nat) (r : Option (Lis
 def step (s : St) (line : String) : IO St := do
   match line.splitOn " " with
   | ["set", id, spec] => return { si := parseSet id spec, variants := #[] }
+  -- the same token set with the inline flag directives `(?i)` / `(?-i)` resolved by the explorer with the documented
+  -- scoping (up to the end of the enclosing group) and the groups removed: what the model lexes with
+  | ["setm", id, spec] => return { s with si := parseSet id spec }
   | ["mset", id, spec] => return { s with msi := parseModeSet id spec, mvalid := #[], mt := {} }
   | ["mkw", l] => return { s with msi := { s.msi with kws := if l == "-" then [] else (l.splitOn ",").map natOf } }
   | ["mambig", l] => return { s with msi := { s.msi with ambig := if l == "-" then [] else (l.splitOn ",").map natOf } }
